@@ -353,7 +353,7 @@ theorem gen_method_bodies :
       PW.Gen.PlaneFn.distanceSrc = "np.absolute(self.signed_distance(points))" ∧
       PW.Gen.PlaneFn.projectMethodSrc = "project_point_to_plane(points, self.equation)" ∧
       PW.Gen.PlaneFn.mirrorMethodSrc = "mirror_point_across_plane(points, self.equation)" ∧
-      PW.Gen.PlaneFn.canonicalPointSrc = "self.normal * self.reference_point.dot(self.normal)" ∧
+      PW.Gen.PlaneFn.canonicalPointSrc = "np.dot(self.reference_point, self.normal) * self.normal" ∧
       PW.Gen.PlaneFn.flippedSrc = "Plane(normal=-self.normal, reference_point=self.reference_point)") ∧
     (PW.Gen.PlaneFn.signedDistanceMethodArgs = ["points", "self.equation"] ∧
       PW.Gen.PlaneFn.projectMethodArgs = ["points", "self.equation"] ∧
@@ -372,7 +372,7 @@ theorem gen_method_bodies :
         (if PW.Gen.PlaneFn.signWrapper = "np.sign" then some (sgn (pl.signedDistance p)) else none)) ∧
     (∀ (pl : Plane K),
       let env := fun (nc : K) => PW.Gen.envOf
-        [("self.normal", nc), ("self.reference_point.dot(self.normal)", pl.ref.dot pl.n)]
+        [("self.normal", nc), ("np.dot(self.reference_point, self.normal)", pl.ref.dot pl.n)]
       pl.canonicalPoint.x = PW.Gen.PlaneFn.canonicalPointPoly.eval (env pl.n.x) ∧
       pl.canonicalPoint.y = PW.Gen.PlaneFn.canonicalPointPoly.eval (env pl.n.y) ∧
       pl.canonicalPoint.z = PW.Gen.PlaneFn.canonicalPointPoly.eval (env pl.n.z)) ∧
@@ -399,7 +399,7 @@ theorem gen_method_bodies :
     the model's `Plane.equation` has exactly this last entry. -/
 theorem gen_equation_offset :
     PW.Gen.PlaneFn.equationNormalOk = some true ∧ PW.Gen.PlaneFn.equationDCoef = -1 ∧
-    PW.Gen.PlaneFn.equationDTerm = "self.reference_point.dot(self.normal)" ∧ PW.Gen.PlaneFn.equationDConst = 0 ∧
+    PW.Gen.PlaneFn.equationDTerm = "np.dot(self.reference_point, self.normal)" ∧ PW.Gen.PlaneFn.equationDConst = 0 ∧
     ∀ pl : Plane K, pl.equation.w =
       ((PW.Gen.PlaneFn.equationDCoef : Int) : K) * pl.ref.dot pl.n + ((PW.Gen.PlaneFn.equationDConst : Int) : K) := by
   refine ⟨by decide, by decide, rfl, by decide, ?_⟩
